@@ -1,5 +1,6 @@
 """C01 — scalar comparisons and boolean logic evaluate per the reference semantics."""
 from lib import *
+import sem
 import common
 
 LEVEL = "other"
@@ -38,32 +39,54 @@ def rule_mask(E, R):
             d = def_path(arm["body"])
             if v and d is not None:
                 flags[last_seg(v)] = consts.get(d, lit_value(arm["body"]))
-    t = tail(h["body"])
-    shape = t.get("k") == "Binary" and t["op"] == "Ne" and lit_value(t["r"]) == 0 and strip(t["l"]).get("op") == "BitAnd" \
-        and {local_name(strip(t["l"])["l"]), local_name(strip(t["l"])["r"])} == {"mask", "flag"}
-    mask_is_self = any(s["pat"].get("name") == "mask" and strip(s.get("init", {})).get("k") == "Cast" and
-                       local_name(strip(s["init"])["e"]) == "self" for s in exprs(h["body"], "SLet"))
+    S = sem.Sem(E, h)
+    t = S.resolve(tail(h["body"]), S.root).node
+    shape = mask_is_self = False
+    if t.get("k") == "Binary" and ((t["op"] == "Ne" and lit_value(t["r"]) == 0) or (t["op"] == "Gt" and lit_value(t["r"]) == 0)) and \
+            strip(t["l"]).get("op") == "BitAnd":
+        sides = [S.resolve(strip(t["l"])["l"], S.root).node, S.resolve(strip(t["l"])["r"], S.root).node]
+        casts = [x for x in sides if x.get("k") == "Cast" and sem.param_index(S, x["e"], S.root) == 0]
+        tables = [x for x in sides if x.get("k") == "Match" and sem.param_index(S, x["scrut"], S.root) == 1]
+        mask_is_self = len(casts) == 1
+        shape = len(tables) == 1
     R.check(shape and mask_is_self, rule, fn, "matches() is `(self as u8) & flag(ordering) != 0`", where=h["span"])
     if set(flags) != {"Less", "Equal", "Greater"} or any(not isinstance(x, int) for x in flags.values()):
         return R.cannot(rule, fn, "ordering flags not extracted: %s" % flags)
-    # matches_opt(None)
+    # matches_opt(None) / matches_opt(Some(o))
     fo = "ast::field_expr::OrderingOp::matches_opt"
     ho = E.hir(fo)
     none_is = None
     some_ok = False
     if ho:
-        for m in find_matches(ho["body"], r"Option<core::cmp::Ordering>$"):
-            for arm in m["arms"]:
-                v = pat_variant(arm["pat"])
-                b = strip(arm["body"])
-                if v == "core::option::Option::None":
-                    if b.get("k") == "Binary" and b["op"] in ("Eq", "Ne") and local_name(b["l"]) == "self":
-                        none_is = (b["op"], last_seg(def_path(b["r"]) or ""))
-                    elif b.get("k") == "Lit":
-                        none_is = ("lit", b["lit"]["v"])
-                elif v == "core::option::Option::Some":
-                    some_ok = b.get("k") == "MethodCall" and norm(b.get("callee", "")) == fn and local_name(b["recv"]) == "self" \
-                        and local_name(b["args"][0]) in pat_bindings(arm["pat"])
+        So = sem.Sem(E, ho, inline=False)
+        none_e = some_e = None       # (node, frame)
+        tl = S_tail = So.resolve(tail(ho["body"]), So.root).node
+        if tl.get("k") == "MethodCall" and tl["m"] == "map_or" and sem.param_index(So, tl["recv"], So.root) == 1:
+            clo = closure_of(tl["args"][1])
+            none_e = tl["args"][0]
+            some_e = tail(clo["body"]) if clo else None
+        else:
+            pO = lambda v: sem.param_index(So, v.node, v.frame) == 1
+            for leaf in So.result_leaves():
+                adm = sem.admits(leaf.pc, pO, None)
+                if adm == {"Option::None"}:
+                    none_e = leaf.node
+                elif adm == {"Option::Some"}:
+                    some_e = leaf.node
+        if none_e is not None:
+            f = So.formula(none_e, So.root)
+            neg = False
+            if f[0] == "not":
+                f, neg = f[1], True
+            if f == ("true",) or f == ("false",):
+                none_is = ("lit", (f == ("true",)) != neg)
+            elif f[0] == "atom" and f[1].kind == "is" and len(f[1].alts) == 1 and sem.param_index(So, f[1].scruts[0].node, f[1].scruts[0].frame) == 0:
+                none_is = ("Ne" if neg else "Eq", last_seg(f[1].alts[0][0]))
+        if some_e is not None:
+            b = sem.peel(some_e)
+            arg_b = So.lookup(sem.peel(b["args"][0]), So.root) if b.get("k") == "MethodCall" and b.get("args") else None
+            some_ok = b.get("k") == "MethodCall" and norm(b.get("callee", "")) == fn and sem.param_index(So, b["recv"], So.root) == 0 \
+                and arg_b is not None and arg_b.kind in ("pat", "closure-param") and sem.param_index(So, b["args"][0], So.root) == 1
         R.check(some_ok, rule, fo, "matches_opt(Some(o)) delegates to matches(o)", where=ho["span"])
     else:
         R.cannot(rule, fo, "anchor not found")
